@@ -1,0 +1,18 @@
+//go:build verif
+
+// Contracts for package example (registration of the gRPC provider and guns), checked by /verif/govc. Comment-only: no code.
+package example
+
+// Each gun type is registered with its own constructor and its own default configuration; the provider reads from the
+// shared file system with the options it was given.
+//@ func Import
+//@ props C17 C18 C20
+//@ may_panic true
+//@ at call register.Provider assert arg(name) == "grpc/json"
+//@ at call register.Gun#0 assert [grpc-gun] arg(name) == "grpc" && arg(newGun) == box(grpc.NewGun) && len(arg(defaultConfigOptional)) == 1 && arg(defaultConfigOptional)[0] == box(grpc.DefaultGunConfig)
+//@ at call register.Gun#1 assert [grpc-scenario-gun] arg(name) == "grpc/scenario" && arg(newGun) == box(scenario.NewGun) && len(arg(defaultConfigOptional)) == 1 && arg(defaultConfigOptional)[0] == box(scenario.DefaultGunConfig)
+
+//@ func Import#lit0
+//@ props C08 C17 C20
+//@ at call grpcjson.NewProvider assert arg(fs) == fs && arg(conf) == conf
+//@ ensures result == box(result_of(grpcjson.NewProvider, 0))
